@@ -33,7 +33,7 @@ def cases(tier):
         for reg in ('before', 'middle', 'unregister'):
             out.append({'fn': 'run_messages', 'id': f'messages/{MSGKINDS[k]}/{reg}', 'params': {'first': k, 'depth': depth, 'reg': reg}})
     for pname, cand in (('pf', 'float'), ('pf', 'int'), ('pi', 'int'), ('pbig', 'bigint'), ('pe', 'smallint'), ('pb', 'bool'), ('ps', 'struct'), ('pa', 'array'),
-                        ('target', 'float'), ('pstr', 'str')):
+                        ('target', 'float'), ('pstr', 'str'), ('psc', 'scaled'), ('pbl', 'blob'), ('ptu', 'tuple')):
         out.append({'fn': 'run_end_to_end', 'id': f'end-to-end/{pname}/{cand}', 'params': {'pname': pname, 'cand': cand}})
     out.append({'fn': 'run_command', 'id': 'end-to-end/command', 'params': {}})
     out.append({'fn': 'run_from_string', 'id': 'from-string', 'params': {}})
@@ -237,6 +237,12 @@ def run_end_to_end(env, p):
         v = [1, 2, 5][env.choice('v', 3)]
     elif cand == 'bool':
         v = env.bool('v')
+    elif cand == 'scaled':
+        v = env.int('v', 0, 100) * 0.1
+    elif cand == 'blob':
+        v = [b'', b'ab', b'\x00\xff\n'][env.choice('v', 3)]
+    elif cand == 'tuple':
+        v = (env.int('v0', 0, 5), ['', 'ab'][env.choice('v1', 2)])
     elif cand == 'struct':
         v = {'x': env.real('v.x', -10, 10), 'n': env.int('v.n', 0, 5)}
     elif cand == 'array':
